@@ -360,6 +360,8 @@ def process_environment(hashseed):
         "perm_seed": r.getrandbits(30),
         # interpreter optimisation level of the tool process (python, python -O, python -OO)
         "optimize": r.choice((0, 0, 0, 0, 0, 1, 2)),
+        # warning filters of the tool process (python -W error turns every warning into an exception)
+        "warnings": r.choice(("", "", "", "", "", "", "", "error")),
         "cwd": r.choice(CWDS),
         "environ": {"TZ": r.choice(TZS), "USER": r.choice(("root", "alice", "bob")),
                     "LOGNAME": r.choice(("root", "alice")), "HOME": r.choice(("/root", "/home/alice", "/")),
@@ -380,6 +382,8 @@ def run_process(hashseed, ops, timeout=900, penv=None):
             for op in ops]
     try:
         opt = ["-" + "O" * int(penv.get("optimize", 0))] if penv.get("optimize") else []
+        if penv.get("warnings"):
+            opt += ["-W", penv["warnings"]]
         p = subprocess.run([PYTHON] + opt + [WORKER],
                            input=json.dumps({"ops": core, "penv": penv}), env=env,
                            capture_output=True, text=True, timeout=timeout, cwd=VERIF_DIR)
@@ -415,6 +419,7 @@ def _blame_environment(op, seed, pa, pb, ra):
         mix = json.loads(json.dumps(pa))
         if comp == "optimize":
             mix["optimize"] = pb.get("optimize", 0)
+            mix["warnings"] = pb.get("warnings", "")
         elif comp == "clock":
             mix["epoch"], mix["tick"] = pb["epoch"], pb["tick"]
         elif comp == "TZ":
